@@ -184,7 +184,7 @@ def gen_dcase(rng):
             c = not c
         if rng.random() < 0.8:
             content += 1
-        saves.append((c, max(content, 1)))
+        saves.append((c, 0 if (i > 0 and rng.random() < 0.15) else max(content, 1)))
     return {"backups": backups, "saves": saves, "load": c if rng.random() < 0.6 else (not c)}
 
 
@@ -195,6 +195,10 @@ def exhaustive_dcases():
             for settings in itertools.product([False, True], repeat=n):
                 for load in (False, True):
                     out.append({"backups": backups, "saves": [(s, i + 1) for i, s in enumerate(settings)], "load": load})
+                    if n >= 2:
+                        # the same history ending with the list becoming empty
+                        out.append({"backups": backups, "load": load,
+                                    "saves": [(s, (i + 1) if i < n - 1 else 0) for i, s in enumerate(settings)]})
     return out
 
 
@@ -221,13 +225,15 @@ def run_dcases(args):
         cls, lcls = schema.objectTypes["Ta"], schema.objectlistTypes["Ta"]
         for compress, content in case["saves"]:
             setup(compress)
-            lst = lcls(objlist=[cls(from_json_dict={"id": 1, "x": content})])
+            # content 0 = the list has become empty (an empty list is a content like any other)
+            lst = lcls(objlist=[cls(from_json_dict={"id": 1, "x": content})] if content else [])
             lst.savecachefile("Ta")
         setup(case["load"])
         try:
             back = lcls.loadcachefile("Ta")
             o = back.get(1)
-            out.append(("content", o.x) if o is not None else ("empty", None))
+            anyfile = any(f.startswith("Ta.") for f in os.listdir(d))
+            out.append(("content", o.x) if o is not None else (("content", 0) if anyfile else ("empty", None)))
         except Exception as e:  # noqa
             out.append(("corrupt", type(e).__name__))
         H.rmtree(d)
